@@ -178,6 +178,12 @@ def _run_one(args):
         try:
             mod.run(ctx)
         except AnalysisError as e:
+            if ctx.violations and v["kind"] == "B":
+                rules = sorted({x.rule for x in ctx.violations})
+                want = v.get("rule")
+                if want and not any(r == want or r.startswith(want) for r in rules):
+                    return (v["id"], "fail", f"reported by {rules}, expected rule {want}")
+                return (v["id"], "ok", ",".join(rules))
             # fail-closed is an acceptable reaction to a breaking variant only when
             # the variant says so
             if v["kind"] == "B" and v.get("accept_analysis_error"):
